@@ -1,9 +1,10 @@
 import DepsDev.Proofs.C03L3Incl
 
 /-!
-# C03 layer L3 for npm, operator `caret`: interval membership of a prerelease candidate
+# C03 layer L3 for npm, operator `caret`: interval membership of a prerelease candidate (operands without tag)
 
-See `C03L3Incl` for the statement (`L1PNpm`) and the proof script.
+See `C03L3Incl` for the statements and the proof script; `C03L3InclCaretP` has the tagged operands
+and the assembled `L1PNpm .caret`.
 -/
 namespace DepsDev.Proofs.C03
 
@@ -13,12 +14,6 @@ set_option linter.unusedSimpArgs false
 set_option linter.unusedVariables false
 
 theorem l1p_full_caret : L1PFull .caret := by l1p_full
-theorem l1p_pre_lt_caret : L1PPreO .caret .lt := by l1p_pre
-theorem l1p_pre_eq_caret : L1PPreO .caret .eq := by l1p_pre
-theorem l1p_pre_gt_caret : L1PPreO .caret .gt := by l1p_pre
 theorem l1p_part_caret : L1PPart .caret := by l1p_part
-
-theorem l1p_npm_caret : L1PNpm .caret :=
-  l1p_assemble _ l1p_full_caret (l1p_pre_assemble _ l1p_pre_lt_caret l1p_pre_eq_caret l1p_pre_gt_caret) l1p_part_caret
 
 end DepsDev.Proofs.C03
